@@ -22,7 +22,7 @@ def cases(seed, n, tier):
 
 
 def solver_level(ck, tier, seed, only=None):
-    n = tier_n(tier, 120, 5000)
+    n = tier_n(tier, 120, 1500)
     items, info = [], []
     for i, P in cases(seed, n, tier):
         if only is not None and i != only:
